@@ -803,7 +803,11 @@ Definition call (f : string) (args : list val) : option (option val) :=   (* Non
     | _ => None
     end
   else if is "np.ravel" then            (* a 1-D array is its own raveling *)
-    match args with [VA l] => if all_scalar l then Some (Some (VA l)) else None | _ => None end
+    match args with
+    | [VA l] => if all_scalar l then Some (Some (VA l))
+                else if rect (VA l) then Some (Some (VA (flatten_arr (VA l))))   (* n-D: the elements in C order *)
+                else None
+    | _ => None end
   else if is "np.isin" then           (* element-wise membership of an int array in an int / an int array *)
     match args with
     | [VA l; VZ i] => option_map (fun r => Some (VA r)) (map_opt (isin_val [VZ i]) l)
